@@ -246,6 +246,39 @@ class HTMLTranslator(html4css1.HTMLTranslator):
         else:
             super().visit_image(node)
 
+    # docutils' DocTitle transform makes the title of a lone top-level section the title of the
+    # document (and the title of a lone sub-section its subtitle), which the HTML writer keeps out
+    # of the body: in a docstring they are written as the section headings they were, with their ids.
+    def _visit_promoted_heading(self, node: nodes.Node, ids: List[str]) -> None:
+        self.section_level += 1
+        tagname = 'h%d' % (self.section_level + self.initial_header_level - 1)
+        self.body.append(self.starttag(node, tagname, '', ids=list(ids)))
+        self.context.append('</%s>\n' % tagname)
+
+    def visit_title(self, node: nodes.Node) -> None:
+        if isinstance(node.parent, nodes.document):
+            self._visit_promoted_heading(node, node.parent['ids'])
+        else:
+            super().visit_title(node)
+
+    def depart_title(self, node: nodes.Node) -> None:
+        if isinstance(node.parent, nodes.document):
+            self.body.append(self.context.pop())
+        else:
+            super().depart_title(node)
+
+    def visit_subtitle(self, node: nodes.Node) -> None:
+        if isinstance(node.parent, nodes.document):
+            self._visit_promoted_heading(node, [])
+        else:
+            super().visit_subtitle(node)
+
+    def depart_subtitle(self, node: nodes.Node) -> None:
+        if isinstance(node.parent, nodes.document):
+            self.body.append(self.context.pop())
+        else:
+            super().depart_subtitle(node)
+
     def visit_doctest_block(self, node: nodes.Node) -> None:
         pysrc = node[0].astext()
         if node.get('codeblock'):
